@@ -85,6 +85,12 @@ _SAFEINV = re.compile(r"select_wf|receiving_ok|cursors(@|\.view\(\))\.len\(\)|fr
 _FAIL = re.compile(r"failed_is_finished|\.result\b|frames(@|\.view\(\))\.len\(\) == 0")
 
 
+# what a process roots: a clause that pins down one of these is about the heap accounting as much as one about the counts
+# (seeded R6d: a message pushed onto the sender's own mailbox after it had been released - the count formula still held,
+# the clause that failed was "the mailbox is unchanged")
+_ROOTS = re.compile(r"\bmailbox\b|\bstack\b|\blocals\b|\bsources\b|\breceiving\b|\bawaiting\b|\.result\b|\bDeliver\b|\bSpawn\b|Action|proc_rest_same|select_state\s*(is\b|==|=~=)")
+
+
 def _failure_text(f, leaves):
     if f["class"] == "functional" and leaves:
         return " ;; ".join(leaves)
@@ -95,7 +101,7 @@ def _topic_ok(topic, f, leaves):
     if topic is None or f.get("taints"):
         return True
     text = _failure_text(f, leaves)
-    acct = bool(_ACCT.search(text))
+    acct = bool(_ACCT.search(text)) or (topic in ("acct", "crash") and bool(_ROOTS.search(text)))
     if topic == "taint":
         # only failures that invalidate the whole function (here: the assertions spliced into it); used where a
         # property owns one asserted fact of a function whose postconditions belong to others
@@ -328,6 +334,21 @@ def check_property(prop, tier):
                 names = sorted({n for n in cesearch.BUILTINS if any(n.startswith(fam[u]) for u in broken)} | ({n for n in cesearch.BUILTINS if n.startswith("vector_")} if any(u in ("rope", "heap") for u in broken) else set()))
                 rep = cesearch.grid(names, seed, cap=1500)
                 dis = rep["disagreements"]
+                # the builtins that go through an undecided function get a much deeper sample (seeded R3c was found, then
+                # lost again when the grid grew and the same cap covered a smaller share of it)
+                deep = set()
+                for u, qs in lost.items():
+                    for q in qs:
+                        oid = u + "::" + q
+                        for pref, bs in cesearch.OBLIGATION_BUILTINS.items():
+                            if oid.startswith(pref):
+                                deep.update(bs)
+                        if q.startswith("builtin_") and q[len("builtin_"):] in cesearch.BUILTINS:
+                            deep.add(q[len("builtin_"):])
+                if deep and not dis:
+                    rep2 = cesearch.grid(sorted(deep), seed, cap=20000)
+                    rep["calls"] += rep2["calls"]
+                    dis = rep2["disagreements"]
                 if prop == "C15":
                     dis = [d for d in dis if "panic" in d["observed"] or "abort" in d["observed"] or "hang" in d["observed"]]
                 standin = {"bounded": True, "ran_because_undecided": broken, "builtins": names, "calls_on_real_code": rep["calls"], "failing_inputs": len(dis)}
